@@ -13,6 +13,7 @@ RULE = ('cases = (list of 1..3 potentials: species pair x library potential) x (
         '{class write, writePotentials, Configuration.read, potable main} + a (cutoff, nr) lattice sweep with one curved '
         'potential; every case executed; evaluations = table rows compared; non-trivial = every case (all library '
         'potentials are curved and pairwise distinct on every grid, every table has >= 2 rows)')
+RULE += '; library (45 entries): custom formulas (nested calls with other arguments, several statements, call spellings, comments on continuation lines, assignments to parameters, block syntax, tiny magnitudes), splines with a first-part bound / a shifted end, 12 ranges, hash-colliding parameter lists; Python callables (no / first / second derivative, int-returning, numpy 0-d returning, abs()-based) and potential OBJECTS (Potential subclass overriding energy(), duck-typed object); labels up to 8 characters; non-decimal cutoffs, tables of 10^4 rows and 15 pairs; potable writes into a pre-filled OUTPUT_FILE or through a symbolic link; a failed tabulation as predecessor'
 ASSUMPTIONS = [
     'reference closed forms (mc/refmodel/forms.py) are the documented formulas; constants of coul/zbl/tang_toennies as listed in DESIGN 2.3',
     'LAMMPS pair_style table syntax as encoded in mc/readers/pair.py (keyword, "N n R lo hi", blank, N rows "i r e f")',
